@@ -79,7 +79,7 @@ pub fn run(ctx: &mut Ctx) {
                 0 | 1 | 2 => { expect_cli.push((id, text.clone())); call(id, "calculate_report", json!({"transactions": text})) }
                 3 => call(id, "parse_transactions", json!({"transactions": text})),
                 4 => call(id, "calculate_report", json!({"transactions": "2024-01-01 BUY A 1 @ 1\n2024-02-01 SELL A 5 @ 1"})),
-                5 => call(id, "calculate_report", json!({"transactions": *r.pick(&["garbage", "", "[1,2", "[{\"date\":\"2024-01-01\"}]"])})),
+                5 | 6 if r.chance(2, 3) => call(id, *r.pick(&["calculate_report", "parse_transactions", "convert_to_dsl"]), json!({"transactions": *r.pick(&["garbage", "", "[1,2", "[{\"date\":\"2024-01-01\"}]", "[{\"ticker\": \"AAPL\n\"}]", "[\n{\"date\": \"2024-01-01\"\n\"x\"}]", "[{\"a\":1,}]", "[\n\n]", "[{\"date\":\"2024-01-01\",\"ticker\":\"A\",\"action\":\"BUY\",\"amount\":\"1\",\"price\":\"1\"}]", "[{\"date\":\"2024-01-01\",\"ticker\":\"A\",\"action\":\"buy\",\"amount\":\"0\",\"price\":\"1\"}]", "[{\"date\":\"2024-01-01\",\n\"ticker\":\"A\",\"action\":\"SPLIT\"}]", "\u{feff}[]", "[\"\n"])})),
                 6 => call(id, "calculate_report", json!({"transactions": 42})),
                 7 => call(id, *r.pick(&["nope", "calculate", ""]), json!({})),
                 8 => call(id, "get_fx_rate", json!({"currency": *r.pick(&["USD", "usd", "ZZZ", ""]), "year": *r.pick(&[2024, 2015, 1999, 2090]), "month": *r.pick(&[1, 6, 12, 0, 13])})),
@@ -150,6 +150,17 @@ pub fn run(ctx: &mut Ctx) {
             let _ = &explain;
         }
         if si == 0 { ctx.ev.sample(json!({"session": reqs})); }
+    }
+    // every malformed-JSON spelling through every text-taking tool, in one pipelined session
+    {
+        let bad = ["garbage", "", "[1,2", "[{\"date\":\"2024-01-01\"}]", "[{\"ticker\": \"AAPL\n\"}]", "[\n{\"date\": \"2024-01-01\"\n\"x\"}]", "[{\"a\":1,}]", "[\n\n]", "[{\"date\":\"2024-01-01\",\n\"ticker\":\"A\",\"action\":\"SPLIT\"}]", "\u{feff}[]", "[\"\n", "[\n", "{\n}", "[{\"date\":\"2024-01-01\",\"ticker\":\"A\n\",\"action\":\"BUY\",\"amount\":\"1\",\"price\":\"1\"}]"];
+        let mut reqs = Vec::new();
+        for tool in ["calculate_report", "parse_transactions", "convert_to_dsl"] { for b in bad { reqs.push(call(2000 + reqs.len() as u64, tool, json!({"transactions": b}))); } }
+        ctx.ev.evaluations += 1;
+        let s = session(&reqs, true);
+        let ids: Vec<u64> = s.responses.iter().filter_map(|v| v["id"].as_u64()).collect();
+        for q in &reqs { let id = q["id"].as_u64().unwrap_or(0); let n = ids.iter().filter(|x| **x == id).count(); if n != 1 { ctx.ev.violation("oracle", format!("malformed-input request id {id} ({} with transactions {:?}) received {n} responses", q["params"]["name"].as_str().unwrap_or("?"), q["params"]["arguments"]["transactions"].as_str().unwrap_or("")), format!("# property C20\n{}\n", q)); } }
+        if !s.exit_ok { ctx.ev.violation("oracle", "the server does not exit cleanly after the malformed-input session".into(), "# property C20\n# malformed-input session\n".into()); }
     }
     // known-finding probes
     {
